@@ -350,3 +350,36 @@ PROPS['C11'] = dict(
                   'complete finite tables are settled by kernel evaluation (decide), no native_decide'],
     assumptions=['the catalogue is checked for internal consistency and convention, not against the IERS web pages (offline)'],
 )
+
+PROPS['C15'] = dict(
+    module='GeodeVerif.Proofs.C15', namespace='GeodeVerif.C15',
+    extra_modules=['GeodeVerif.Model.Coord', 'GeodeVerif.Model.Angles'], drivers=['crddrv'],
+    required_theorems=['same_numbers', 'heights_carried', 'n_value', 'notation_total', 'chain_closed_position',
+                       'chain_closed_sep', 'chain_closed_heights'],
+    needs_driver=False,
+    correspondence='corr_coord.py',
+    probe='C15.py',
+    rule='correspondence (hand model Model/Coord.lean = the generic model instantiated with the GENERATED GenF.Convert '
+         'functions and the angle model; driver crddrv): random objects and chains of length 2-8 over {cart, geo, tm, '
+         'notation}, all height-presence combinations incl. exact zeros, six notations, GRS80/ANS, UTM/ISG; objects compared '
+         'by vars() with floats bitwise. search: the functional API as oracle, closed chains (0.3 mm), N = ell − orth, 36 notation pairs.',
+    trusted_base=['Model/Coord.lean is a hand-written model of coord.py generic in the conversion functions (record Conv); the '
+                  'theorems hold for every Conv, the driver instantiates it with the regenerated GenF conversions'],
+    assumptions=['the 0.3 mm closure in binary64 is decided by search (inherits C02/C03)'],
+)
+
+PROPS['C20'] = dict(
+    module='GeodeVerif.Proofs.C20', namespace='GeodeVerif.C20',
+    extra_modules=['GeodeVerif.Model.Api', 'GeodeVerif.Model.Angles'], drivers=['apidrv'],
+    required_theorems=['vincinv_wiring', 'vincdir_wiring', 'types_independent', 'routes_listed'],
+    needs_driver=False,
+    correspondence='corr_api.py',
+    probe='C20.py',
+    rule='correspondence (hand model Model/Api.lean generic in the four wired functions, instantiated with the regenerated '
+         'GenF.Geodesy.vincinv/vincdir and the angle model; driver apidrv): random queries through the Flask test client '
+         'over the C04/C05 domains, all 9 angle-type combinations, HP-valid and decimal inputs, negative values; JSON '
+         'numbers parsed back and compared bitwise with the model and with direct library calls; status codes; url_map vs routes. '
+         'search: HTTP result == direct library call.',
+    trusted_base=['Model/Api.lean is a hand-written model of api/app.py (wiring only)'],
+    assumptions=['Flask/Werkzeug query parsing and jsonify float formatting are runtime behaviour covered by the correspondence only'],
+)
